@@ -21,7 +21,7 @@ use trippy_core::{
     Builder, CompletionReason, Flags, IcmpPacketType, MultipathStrategy, Port, PortDirection, Probe, ProbeComplete, ProbeStatus, Protocol,
     Round, RoundId, Sequence, State, TimeToLive, TraceId, Tracer,
 };
-use trippy_tui::verif::{build_config, install, run_app_scripted, Args, ConfigFile, GeoIpLookup, Step, TraceInfo, TuiApp, TuiConfig};
+use trippy_tui::verif::{columns as app_columns, settings_rows, build_config, install, run_app_scripted, Args, ConfigFile, GeoIpLookup, Step, TraceInfo, TuiApp, TuiConfig};
 
 /// Watchdog state: a draw or command that makes no progress for VT_HANG_SECS seconds ends the process with
 /// exit code 3 after writing `<out>.hang` (the driver re-runs the batch without that scenario and reports it).
@@ -345,6 +345,8 @@ struct Ctx {
     default_cols: bool,
     script: Option<(Script, usize, Vec<Vec<u8>>)>,
     cur_trace: usize,
+    /// 0 = main view, 1 = help dialog, 2 = settings dialog (as of the last frame)
+    dialog: u8,
 }
 
 #[allow(clippy::too_many_lines)]
@@ -483,7 +485,7 @@ pub fn run(seed: u64, n: usize, family: &str, out: &str, stats_path: Option<&str
         let steps = if family == "long" { 1500 } else { 250 };
         let ctx = Rc::new(RefCell::new(Ctx { rng, gens, steps_left: steps, events: Vec::new(), last_key: String::new(), sh: sh.clone(), family: family.to_string(),
             default_cols: !argv.iter().any(|a| a == "--tui-custom-columns"),
-            script: scripts.get(sc).map(|s| (s.clone(), 0usize, vec![vec![0u8; 8]; s.ntraces])), cur_trace: 0 }));
+            script: scripts.get(sc).map(|s| (s.clone(), 0usize, vec![vec![0u8; 8]; s.ntraces])), cur_trace: 0, dialog: 0 }));
         ctx.borrow_mut().events.push(json!({"e":"tcfg","sc":format!("{family}-{seed}-{sc}"),"ntraces":ntraces,"max_flows":if strat == MultipathStrategy::Classic { 1 } else { max_flows },
             "first_ttl":first_ttl,"privacy0":privacy.map_or(-1, i64::from),"w":w0,"h":h0,"argv":argv}));
         let c1 = ctx.clone();
@@ -546,7 +548,11 @@ pub fn run(seed: u64, n: usize, family: &str, out: &str, stats_path: Option<&str
             if roll < 55 {
                 let cmds = commands();
                 // privacy and flow keys are favoured in their families
-                let (name, key) = if c.family == "privacy" && c.rng.random_bool(0.4) {
+                let (name, key) = if c.dialog != 0 && c.rng.random_bool(0.2) {
+                    // leave the dialog now and then: most commands only exist in the main view
+                    let close = if c.dialog == 1 { "toggle_help" } else { "toggle_settings" };
+                    *cmds.iter().find(|(n, _)| *n == close).unwrap()
+                } else if c.family == "privacy" && c.rng.random_bool(0.4) {
                     cmds[23 + c.rng.random_range(0..2)]
                 } else {
                     cmds[c.rng.random_range(0..cmds.len())]
@@ -605,6 +611,7 @@ pub fn run(seed: u64, n: usize, family: &str, out: &str, stats_path: Option<&str
             ev.as_object_mut().unwrap().insert("default_cols".into(), json!(c.default_cols));
             c.events.push(ev);
             c.cur_trace = app.trace_selected;
+            c.dialog = if app.show_help { 1 } else if app.show_settings { 2 } else { 0 };
         });
         install(Some(script), Some(observer));
         let r = std::panic::catch_unwind(std::panic::AssertUnwindSafe(|| run_app_scripted(&mut terminal, &mut app)));
@@ -686,6 +693,7 @@ fn frame_event(app: &TuiApp, sh: &Shared, last_key: &str) -> Value {
         "privacy":app.tui_config.privacy_max_ttl.map_or(-1, i64::from),"hop_count":hop_count,"nflows":flow_ids.len(),"flow_ids":flow_ids,
         "fc":app.flow_counts.iter().map(|(id, _)| id.0).collect::<Vec<_>>(),"naddrs_sel":naddrs_sel,"max_addrs":app.tui_config.max_addrs.map_or(-1, i64::from),
         "w":sh.w,"h":sh.h,"found":found,"tfound":tfound,"resp":resp,"src_found":text.contains(&SRC.to_string()),"target_found":text.contains(&target),
+        "rows":settings_rows(app),"cols":app_columns(app).into_iter().map(|(n, s)| json!({"id":n,"shown":s})).collect::<Vec<_>>(),
         "hops0":all_hops.len(),"addrs0":all_hops.iter().map(|(_, a)| a.len()).collect::<Vec<_>>(),
         "key":last_key,"amode":format!("{:?}", app.tui_config.address_mode)})
 }
